@@ -304,6 +304,9 @@ def r174(ctx):
     f = methods["treat_output"]
     cfg = cfg_of(f)
     removes = [c for c in walk_local(f) if isinstance(c, ast.Call) and isinstance(c.func, ast.Attribute) and c.func.attr in ("pop", "remove") and path_of(c.func.value) == "self.locked"]
+    # the record rebuilt without the completed job (selection of the old records; the selector itself is decided by C03 R-3.5)
+    removes += [st for st in walk_local(f) if isinstance(st, ast.Assign) and any(path_of(t) == "self.locked" for t in st.targets) and isinstance(st.value, ast.ListComp)
+                and len(st.value.generators) == 1 and path_of(st.value.generators[0].iter) == "self.locked" and st.value.generators[0].ifs]
     commits = [c for c in walk_local(f) if isinstance(c, ast.Call) and is_self_attr(c.func, "write_toml")]
     if removes and commits and all(cfg.reaches(cfg.node_of(r), cfg.node_of(c)) for r in removes for c in commits):
         ctx.ok("R-17.4", removes[0], "treat_output removes the completed job from self.locked before write_toml")
@@ -452,10 +455,18 @@ def r175(ctx):
                 a, a_node = -h, n
         if isinstance(n, ast.AugAssign) and isinstance(n.target, ast.Attribute) and n.target.attr == "cstep":
             inc = n
-        if isinstance(n, ast.Return) and isinstance(n.value, ast.Compare):
-            h = _offset(_halfspace(n.value), {"c": -1, "T": 1})
+        rv, shift = (n.value, 0) if isinstance(n, ast.Return) else (None, 0)
+        if isinstance(rv, ast.Name):
+            # `within = cstep <= tsteps` kept in a local: the comparison is evaluated where the local is defined
+            _fl = flow_of(loop)
+            rv, _dat = deref(_fl, rv, _fl.cfg.node_of(n))
+            _incs = [x for x in loop.body if isinstance(x, ast.AugAssign) and isinstance(x.target, ast.Attribute) and x.target.attr == "cstep"]
+            if isinstance(rv, ast.Compare) and _incs and _dat is not None and not _fl.cfg.reaches(_fl.cfg.node_of(_incs[0]), _dat):
+                shift = 1  # evaluated before the counter is advanced: cstep there = final cstep - 1
+        if isinstance(n, ast.Return) and isinstance(rv, ast.Compare):
+            h = _offset(_halfspace(rv), {"c": -1, "T": 1})
             if h is not None:
-                b, b_node = h, n
+                b, b_node = h + shift, n
     if a is None or b is None or inc is None or not (isinstance(inc.op, ast.Add) and isinstance(inc.value, ast.Constant) and inc.value.value == 1):
         raise AnalysisError("R-17.5: loop() is not of the form `if cstep >= tsteps: ... return False; cstep += 1; ...; return cstep <= tsteps`")
     if min(a, b) != 0:
@@ -634,7 +645,7 @@ def r1711(ctx):
                 if (nm, bn.id) in seen:
                     continue
                 seen.add((nm, bn.id))
-                stores = [cfg.node_of(st) for st in walk_local(f) if isinstance(st, (ast.Assign, ast.AugAssign, ast.AnnAssign)) and any(isinstance(t_, ast.Name) and t_.id == nm for t_ in (st.targets if isinstance(st, ast.Assign) else [st.target])) and cfg.nodes_of(st)]
+                stores = [cfg.node_of(st) for st in walk_local(f) if isinstance(st, (ast.Assign, ast.AugAssign, ast.AnnAssign)) and any(isinstance(x_, ast.Name) and x_.id == nm and isinstance(x_.ctx, ast.Store) for t_ in (st.targets if isinstance(st, ast.Assign) else [st.target]) for x_ in ast.walk(t_)) and cfg.nodes_of(st)]
                 # exception handlers bind their name
                 stores += [cfg.node_of(h) for h in walk_local(f) if isinstance(h, ast.ExceptHandler) and h.name == nm and cfg.nodes_of(h)]
                 if not cfg.reaches(gn, bn):
@@ -761,6 +772,8 @@ def run(ctx):
 
 
 VARIANTS = [
+    K("c17-keep-loop-verdict-in-a-local", REPEX, "        if self.printing() and self.cstep <= self.tsteps:\n            logger.info(f\"------- infinity {self.cstep:5.0f} START -------\")\n            logger.info(\"date: \" + datetime.now().strftime(DATE_FORMAT))\n\n        return self.cstep <= self.tsteps\n", "        within_steps = self.cstep <= self.tsteps\n        if self.printing() and within_steps:\n            logger.info(f\"------- infinity {self.cstep:5.0f} START -------\")\n            logger.info(\"date: \" + datetime.now().strftime(DATE_FORMAT))\n\n        return within_steps\n", why="refactoring r5repex"),
+    K("c17-keep-loop-verdict-taken-before-the-advance", REPEX, "        self.cstep += 1\n\n        if self.printing() and self.cstep <= self.tsteps:", "        within_steps = self.cstep <= self.tsteps\n        self.cstep += 1\n\n        if self.printing() and self.cstep <= self.tsteps:", also=[(REPEX, "        return self.cstep <= self.tsteps\n", "        return within_steps\n")], why="computed before the advance: loop() still leaves at the top when cstep >= tsteps, so the number of cycles is unchanged (min of the two bounds)"),
     B("c17-loop-commits-the-advanced-counter", REPEX, "        return self.cstep <= self.tsteps\n", "        self.write_toml()\n\n        return self.cstep <= self.tsteps\n", "R-17.12", control=True, why="seeded C17_n"),
     B("c17-main-loop-commits-before-the-result", SCHED, "        future = futures.as_completed()\n", "        state.write_toml()\n        future = futures.as_completed()\n", "R-17.12", why="sibling of C17_n in the caller"),
     K("c17-keep-commit-before-the-counter-advances", REPEX, "        self.cstep += 1\n\n        if self.printing() and self.cstep <= self.tsteps:", "        self.write_toml()\n        self.cstep += 1\n\n        if self.printing() and self.cstep <= self.tsteps:", why="before the advance the counter equals the consumed results"),
